@@ -2362,6 +2362,12 @@ def _patch_edits(name, root='/repo'):
                 i += 1
             src = open(os.path.join(root, cur)).read().split('\n')
             lo, hi = start - 1, start - 1 + len(old)
+            if src[lo:hi] != old:
+                # the reference tree moved on (a later fix: commit shifted the lines): take the nearest exact occurrence
+                for k in sorted(range(-400, 401), key=abs):
+                    if lo + k >= 0 and src[lo + k:hi + k] == old:
+                        lo, hi = lo + k, hi + k
+                        break
             assert src[lo:hi] == old, (name, cur, start)
             pre, post = [], []
             text = '\n'.join(src)
@@ -4696,6 +4702,17 @@ M('C18', 'ecdsa-copy-oid-from-copy-itself', FL, "        pkt = super(ECDSAPub, s
 M('C18', 'material-copy-skips-first-integer', TYP, "        for m in self.__mpis__:\n            setattr(pk, m, copy.copy(getattr(self, m)))", "        for m in list(self.__mpis__)[1:]:\n            setattr(pk, m, copy.copy(getattr(self, m)))", 'C18.9')
 M('C18', 'material-copy-normalises-integers', TYP, "            setattr(pk, m, copy.copy(getattr(self, m)))", "            setattr(pk, m, MPI(abs(int(getattr(self, m)))))", 'C18.9')
 M('C18', 'pubfields-not-among-copied-integers', FL, "        for i in self.__pubfields__:\n            yield i", "        for i in self.__pubfields__[1:]:\n            yield i", 'C18.9')
+# reverse of fix 1e3bd89: the opaque containers lose `data` on copy again (C18.9 over the fallback key material, C14.6 over both)
+_OPQ_PUB_COPY = "    def __copy__(self):\n        pk = super(OpaquePubKey, self).__copy__()\n        pk.data = copy.copy(self.data)\n        return pk\n"
+_OPQ_SIG_COPY = "    def __copy__(self):\n        sig = super(OpaqueSignature, self).__copy__()\n        sig.data = copy.copy(self.data)\n        return sig\n"
+M('C18', 'opaque-keymaterial-copy-removed', FL, _OPQ_PUB_COPY, "", 'C18.9')
+M('C18', 'opaque-keymaterial-copy-empty-data', FL, "        pk.data = copy.copy(self.data)\n        return pk", "        pk.data = bytearray()\n        return pk", 'C18.9')
+M('C14', 'opaque-keymaterial-copy-removed', FL, _OPQ_PUB_COPY, "", 'C14.6')
+M('C14', 'opaque-signature-copy-removed', FL, _OPQ_SIG_COPY, "", 'C14.6')
+M('C14', 'opaque-signature-copy-from-itself', FL, "        sig.data = copy.copy(self.data)\n        return sig", "        sig.data = copy.copy(sig.data)\n        return sig", 'C14.6')
+M('C14', 'ecdh-copy-kdf-default', FL, "        pkt.oid = self.oid\n        pkt.kdf = copy.copy(self.kdf)\n        return pkt", "        pkt.oid = self.oid\n        return pkt", 'C14.6')
+M('C14', 'signature-material-copy-skips-first-integer', TYP, "        for m in self.__mpis__:\n            setattr(pk, m, copy.copy(getattr(self, m)))", "        for m in list(self.__mpis__)[1:]:\n            setattr(pk, m, copy.copy(getattr(self, m)))", 'C14.6')
+T('C14', 'twin-opaque-signature-copy-bytearray', FL, "        sig.data = copy.copy(self.data)\n        return sig", "        sig.data = bytearray(self.data)\n        return sig")
 # --- other kinds
 M('C18', 'fingerprint-cached-never-invalidated', PK, "        fp = hashlib.new('sha1')\n\n        plen = self.keymaterial.publen()", "        if getattr(self, '_fpr_cache', None) is not None:\n            return self._fpr_cache\n        fp = hashlib.new('sha1')\n\n        plen = self.keymaterial.publen()",
   'C18.1', more=[(PK, "        return Fingerprint(fp.hexdigest().upper())", "        self._fpr_cache = Fingerprint(fp.hexdigest().upper())\n        return self._fpr_cache")])
